@@ -87,6 +87,8 @@ type In struct {
 	// earlier attempts with the very same bid through the same component instances: store_ok of
 	// each (the observation is that of the last attempt, whose flag is store_ok)
 	Earlier []bool `json:"earlier,omitempty"`
+	// what the registry held for the signer at each of those earlier attempts (default: amt_ans)
+	EarlierAmt []Ans `json:"earlier_amt,omitempty"`
 }
 type Effect struct {
 	T        string `json:"t"` // sign | store | write
@@ -233,6 +235,7 @@ func run(in In) (obs Obs) {
 	var mu sync.Mutex
 	logE := func(e Effect) { mu.Lock(); obs.Effects = append(obs.Effects, e); mu.Unlock() }
 	storeOK := in.StoreOK
+	curAmt := in.AmtAns
 	rng := vh.NewRng(uint64(len(in.Tag)) + 77)
 	ks := vh.NewKeySigner(rng)
 	ks.FailHash.Store(!in.SignOK)
@@ -244,7 +247,9 @@ func run(in In) (obs Obs) {
 		case len(req.CallData) >= 4 && string(req.CallData[:4]) == string(bidABI.Methods["minAllowance"].ID):
 			a = in.MinAns
 		case len(req.CallData) >= 4 && string(req.CallData[:4]) == string(bidABI.Methods["getAllowance"].ID):
-			a = in.AmtAns
+			mu.Lock()
+			a = curAmt
+			mu.Unlock()
 			// the registry is keyed by address: only the bid's signer holds amt_ans
 			if len(in.Prims) > 0 && len(req.CallData) >= 36 && hx(req.CallData[16:36]) != in.Prims[0].Addr {
 				if in.PeerAmt != nil {
@@ -423,9 +428,13 @@ func run(in In) (obs Obs) {
 			}
 		}
 	}
-	for _, ok := range in.Earlier {
+	for i, ok := range in.Earlier {
 		mu.Lock()
 		storeOK = ok
+		curAmt = in.AmtAns
+		if i < len(in.EarlierAmt) {
+			curAmt = in.EarlierAmt[i]
+		}
 		mu.Unlock()
 		attempt()
 		mu.Lock()
@@ -435,6 +444,7 @@ func run(in In) (obs Obs) {
 	}
 	mu.Lock()
 	storeOK = in.StoreOK
+	curAmt = in.AmtAns
 	mu.Unlock()
 	attempt()
 	return obs
@@ -558,6 +568,130 @@ func runConcurrent(ins []In) (obs Obs) {
 		obs.Stuck = true
 	}
 	obs.Result = "concurrent"
+	return obs
+}
+
+// attemptLogDA records that a settlement submission was attempted, then lets the real
+// commitment-store wrapper (over the real EvmClient) do it
+type attemptLogDA struct {
+	preconfcontract.Interface
+	log func(Effect)
+}
+
+func (d attemptLogDA) StoreCommitment(ctx context.Context, bid *big.Int, blk uint64, tx string, st, en uint64, bs, cs []byte) error {
+	d.log(Effect{T: "store"})
+	return d.Interface.StoreCommitment(ctx, bid, blk, tx, st, en, bs, cs)
+}
+
+// runWindow: one accepted bid handled over the REAL EvmClient while the account's pending nonce
+// is more than the in-flight window ahead of its confirmed nonce: the client refuses to send.
+// The bidder must get an error and no commitment.
+func runWindow(in In) (obs Obs) {
+	obs.Effects = []Effect{}
+	obs.EngineFieldsOK = true
+	var mu sync.Mutex
+	logE := func(e Effect) { mu.Lock(); obs.Effects = append(obs.Effects, e); mu.Unlock() }
+	rng := vh.NewRng(4343)
+	ks := vh.NewKeySigner(rng)
+	signLog := &signSpy{KeySigner: ks, log: logE}
+	sgn := preconfsigner.NewSigner(signLog)
+	node := mockevm.NewMockEvm(31337,
+		mockevm.WithPendingNonceAtFunc(func(context.Context, common.Address) (uint64, error) { return 5000, nil }),
+		mockevm.WithNonceAtFunc(func(context.Context, common.Address, *big.Int) (uint64, error) { return 3, nil }),
+		mockevm.WithBlockNumFunc(func(context.Context) (uint64, error) { return 1, nil }),
+		mockevm.WithEstimateGasFunc(func(context.Context, ethereum.CallMsg) (uint64, error) { return 100000, nil }),
+		mockevm.WithSuggestGasPriceFunc(func(context.Context) (*big.Int, error) { return big.NewInt(2000000000), nil }),
+		mockevm.WithSuggestGasTipCapFunc(func(context.Context) (*big.Int, error) { return big.NewInt(1000000000), nil }),
+		mockevm.WithSendTransactionFunc(func(_ context.Context, tx *types.Transaction) error {
+			mu.Lock()
+			defer mu.Unlock()
+			// what actually reached the node completes the attempt record
+			for i := len(obs.Effects) - 1; i >= 0; i-- {
+				if obs.Effects[i].T == "store" {
+					obs.Effects[i].CallData = hx(tx.Data())
+					if tx.To() != nil {
+						obs.Effects[i].To = hx(tx.To().Bytes())
+					}
+					break
+				}
+			}
+			return nil
+		}),
+	)
+	client, err := evmclient.New(ks, node, vh.Quiet())
+	if err != nil {
+		panic(err)
+	}
+	defer client.Close()
+	regClient := mockevmclient.New(mockevmclient.WithCallFunc(func(_ context.Context, req *evmclient.TxRequest) ([]byte, error) {
+		a := in.AmtAns
+		if len(req.CallData) >= 4 && string(req.CallData[:4]) == string(bidABI.Methods["minAllowance"].ID) {
+			a = in.MinAns
+		}
+		b, _ := hex.DecodeString(a.Bytes)
+		return b, nil
+	}))
+	us := bidderreg.New(regAddr, regClient, vh.Quiet())
+	da := attemptLogDA{preconfcontract.New(daAddr, client, vh.Quiet()), logE}
+	svc := providerapi.NewService(vh.Quiet(), nil, common.Address{}, nil, validator)
+	pc := preconfirmation.New(nil, nil, sgn, us, svc, da, vh.Quiet())
+	handler := pc.Streams()[0].Handler
+	root, cancelRoot := context.WithCancel(context.Background())
+	defer cancelRoot()
+	rs := &recvSrv{ctx: root, bids: make(chan *providerapiv1.Bid, 4)}
+	go func() { _ = svc.ReceiveBids(&providerapiv1.EmptyMessage{}, rs) }()
+	ds := &decSrv{ctx: root, in: make(chan *providerapiv1.BidResponse), entered: make(chan struct{}, 1), ended: make(chan struct{})}
+	go func() { defer close(ds.ended); _ = svc.SendProcessedBids(ds) }()
+	go func() {
+		select {
+		case b := <-rs.bids:
+			select {
+			case ds.in <- &providerapiv1.BidResponse{BidDigest: b.BidDigest, Status: 1}:
+			case <-root.Done():
+			}
+		case <-root.Done():
+		}
+	}()
+	resC := make(chan error, 1)
+	go func() {
+		defer func() {
+			if r := recover(); r != nil {
+				mu.Lock()
+				obs.Panic = true
+				mu.Unlock()
+				resC <- errors.New("panic")
+			}
+		}()
+		resC <- handler(root, p2p.Peer{EthAddress: common.HexToAddress("0xb1dde7"), Type: p2p.PeerTypeBidder}, &scriptStream{in, logE})
+	}()
+	var res error
+	select {
+	case res = <-resC:
+	case <-time.After(4 * time.Second):
+		obs.Stuck = true
+	}
+	mu.Lock()
+	defer mu.Unlock()
+	wrote := false
+	for _, e := range obs.Effects {
+		if e.T == "write" {
+			wrote = true
+		}
+	}
+	switch {
+	case obs.Panic:
+		obs.Result = "panic"
+	case res == nil && wrote:
+		obs.Result = "ok"
+	case res == nil:
+		obs.Result = "nothing"
+	default:
+		if st, ok := status.FromError(res); ok && st.Code() == codes.Internal {
+			obs.Result = "Internal"
+		} else {
+			obs.Result = "other"
+		}
+	}
 	return obs
 }
 
@@ -729,6 +863,13 @@ func main() {
 				SignOK: true, StoreOK: i%7 != 6, WriteOK: true, Selector: sel, Prims: []Prim{prim(b.Digest, b.Signature)}, Earlier: earlier}
 			out.Emit(in, run(in))
 		}
+		// the account's in-flight window is exhausted: the real client refuses to send
+		for i := 0; i < vh.Count(3, 30); i++ {
+			b := mkBid("valid")
+			in := In{Tag: "window-exceeded", Role: 2, ReadOK: true, Bid: toJ(b), MinAns: yes[0], AmtAns: yes[1], Schedule: accept,
+				SignOK: true, StoreOK: false, WriteOK: true, Selector: sel, Prims: []Prim{prim(b.Digest, b.Signature)}}
+			out.Emit(in, runWindow(in))
+		}
 		// several bids in flight at once through one contract client (real EvmClient underneath)
 		for i := 0; i < vh.Count(6, 60); i++ {
 			k := 2 + rng.Intn(3)
@@ -822,6 +963,21 @@ func main() {
 			a, pa := allowances[kc.signer], allowances[kc.peer][1]
 			in := In{Tag: kc.tag, Role: 2, ReadOK: true, Bid: toJ(b), MinAns: a[0], AmtAns: a[1], PeerAmt: &pa, Schedule: accept,
 				SignOK: true, StoreOK: true, WriteOK: true, Selector: sel, Prims: []Prim{prim(b.Digest, b.Signature)}}
+			out.Emit(in, run(in))
+		}
+	}
+	// the same signer bids again through the same instances after its allowance changed on chain
+	for k := 0; k < vh.Count(3, 30); k++ {
+		for _, ch := range []struct {
+			tag         string
+			before, now string
+		}{{"allowance-changed:funded-then-withdrawn", "yes", "no"}, {"allowance-changed:unfunded-then-funded", "no", "yes"},
+			{"allowance-changed:funded-then-read-fails", "yes", "call-error"}, {"allowance-changed:funded-then-minimum-unreadable", "yes", "min-error"}} {
+			b := mkBid("valid")
+			a := allowances[ch.now]
+			in := In{Tag: ch.tag, Role: 2, ReadOK: true, Bid: toJ(b), MinAns: a[0], AmtAns: a[1], Schedule: accept,
+				SignOK: true, StoreOK: true, WriteOK: true, Selector: sel, Prims: []Prim{prim(b.Digest, b.Signature)},
+				Earlier: []bool{true}, EarlierAmt: []Ans{allowances[ch.before][1]}}
 			out.Emit(in, run(in))
 		}
 	}
